@@ -119,7 +119,12 @@ impl TryFrom<&Value> for Number {
 
 impl Hash for Number {
     fn hash<H: std::hash::Hasher>(&self, state: &mut H) {
-        self.value.to_bits().hash(state);
+        // +0.0 and -0.0 are equal, they must hash alike
+        if self.value == 0.0 {
+            0.0_f64.to_bits().hash(state);
+        } else {
+            self.value.to_bits().hash(state);
+        }
         self.unit.hash(state);
     }
 }
